@@ -92,7 +92,9 @@ pub fn run(stim: &Value, rec: &Rec) {
 pub fn gen(seed: u64, tier: &str) -> Vec<Value> {
     let mut rng = rand::rngs::StdRng::seed_from_u64(seed ^ 0xC12);
     let n = if tier == "thorough" { 6000 } else { 1000 };
-    let names = ["x", "x-bin", "y", "te", "content-type", "user-agent", "grpc-status", "grpc-timeout", "grpc-encoding", "authorization", "k-bin"];
+    let names = ["x", "x-bin", "y", "te", "content-type", "user-agent", "grpc-status", "grpc-timeout", "grpc-encoding", "authorization", "k-bin",
+                 // headers other HTTP stacks (proxies, browsers, grpc-web bridges) add and tonic's own client never sends
+                 "content-length", "accept", "accept-encoding", "host", "cookie", "x-forwarded-for", "grpc-accept-encoding", "grpc-message-type", "trailer", "via"];
     let uris = ["/a.S/M", "/a.S/M?q=1", "http://h.test/a.S/M", "/", "*"];
     (0..n).map(|_| {
         let via_layer = rng.gen_bool(0.3);
